@@ -326,6 +326,25 @@ def io(W, cfg):
         store.close()
 
 
+def io_fields(W, cfg):
+    """write -> read keeps every persisted field, record by record (cheap
+    structural companion of io() for objects with many members)"""
+    rng1 = StubRNG(stream=1, draws=4)
+    rng2 = StubRNG(stream=1, draws=4)
+    obj, cls = build(W, cfg, rng1)
+    store = Store(W)
+    try:
+        ok, res = call(W, 'C09:write-read-no-raise',
+                       lambda: roundtrip(W, store, obj, cls, rng2))
+        if not ok:
+            return
+        copy, _ = res
+        same_behaviour(W, deep_fields(W, obj), deep_fields(W, copy),
+                       'C09:read-back-fields-identical')
+    finally:
+        store.close()
+
+
 def update(W, cfg):
     """write, sample, update, read  ==  the live object / a full write+read"""
     np = W.np
